@@ -381,7 +381,9 @@ extern int mpt_graph_get(const MPT_STRUCT(graph) *gr, MPT_STRUCT(property) *pr)
 		return 0;
 	}
 	if (!strcmp(pr->name, "clip") && gr->clip < 8) {
+		/* text form lives in the property buffer, do not compare it to the raw default */
 		MPT_property_set_string(pr, axes_clip[gr->clip]);
+		return gr->clip != def_graph.clip;
 	}
 	return mpt_value_compare(&pr->val, ((uint8_t *) &def_graph) + elem[pos].off);
 }
